@@ -122,20 +122,23 @@ MassAgrees(ev, want, tol) ==
 
 (* C02_AdductElectronCount: see Mass!AdductTermExcessElectrons *)
 Dev_C02_AdductElectronCount(ev) ==
-    /\ ev.k = "mass" /\ ev.out = "ret"
+    /\ ev.k = "mass" /\ ev.out = "ret" /\ ev.res2 = ev.res
     /\ AdductsExcessElectrons(EffAdducts(ev)) # 0
     /\ LET want == PrecursorMass(ev.A, EffZ(ev), EffAdducts(ev), ev.iso, ev.loss, ev.mono, FALSE)
            tol == FAdd(BaseTol(ev.mono), HalfUlp(ev.prec)) IN
        MassAgrees(ev, FAdd(want, FMulInt(Electron, AdductsExcessElectrons(EffAdducts(ev)))), tol)
 
-(* C02_GlycanTabulatedAverage: in average mode a glycan contributes the tabulated average mass of its          *)
-(* monosaccharides, which drifts from the sum of NIST average atomic masses by up to 4e-4 Da per unit          *)
-Dev_C02_GlycanTabulatedAverage(ev) ==
-    /\ ev.k = "mass" /\ ev.out = "ret" /\ ~ev.mono
+(* C02_TabulatedMassRounding: the mass of a named vocabulary entry or of a glycan is taken from the bundled       *)
+(* tables, whose values are rounded (Unimod: 6 decimals monoisotopic, 4 decimals average computed with other      *)
+(* atomic weights; monosaccharide averages likewise).  Per tabulated unit the contribution drifts from the        *)
+(* NIST-weight sum by up to 5e-7 Da (monoisotopic) / 4e-4 Da (average); with enough units the bound is exceeded.  *)
+Dev_C02_TabulatedMassRounding(ev) ==
+    /\ ev.k = "mass" /\ ev.out = "ret" /\ ev.res2 = ev.res
     /\ LET s == NeutralSem(ev.A, TRUE, FALSE)
            want == PrecursorMass(ev.A, EffZ(ev), EffAdducts(ev), ev.iso, ev.loss, ev.mono, FALSE)
            excess == FMulInt(Electron, AdductsExcessElectrons(EffAdducts(ev)))
-           tol == FAdd(FAdd(BaseTol(ev.mono), HalfUlp(ev.prec)), FMulInt(Micro(400), s.sugars)) IN
+           perUnit == IF ev.mono THEN Nano(500) ELSE Micro(400)
+           tol == FAdd(FAdd(BaseTol(ev.mono), HalfUlp(ev.prec)), FMulInt(perUnit, s.sugars)) IN
        /\ s.sugars > 0
        /\ (MassAgrees(ev, want, tol)
            \/ ("C02_AdductElectronCount" \in Devs /\ MassAgrees(ev, FAdd(want, excess), tol)))
@@ -155,7 +158,7 @@ Dev(ev) == IF ev.k \in {"agree", "estimate"}
            THEN (IF "C03_AdductElectronCount" \in Devs /\ Dev_C03_AdductElectronCount(ev) THEN "C03_AdductElectronCount" ELSE "")
            ELSE IF ev.k # "mass" THEN ""
            ELSE IF "C02_AdductElectronCount" \in Devs /\ Dev_C02_AdductElectronCount(ev) THEN "C02_AdductElectronCount"
-           ELSE IF "C02_GlycanTabulatedAverage" \in Devs /\ Dev_C02_GlycanTabulatedAverage(ev) THEN "C02_GlycanTabulatedAverage"
+           ELSE IF "C02_TabulatedMassRounding" \in Devs /\ Dev_C02_TabulatedMassRounding(ev) THEN "C02_TabulatedMassRounding"
            ELSE ""
 (* what the specification expected, printed with a non-ok verdict *)
 Detail(ev) == CASE ev.k \in {"agree", "rowagree"} /\ ev.out = "ret" /\ Comp8Resolvable(ev.comp, ev.mono) ->
